@@ -547,10 +547,16 @@ func processFetchForMessage(deps ServerDeps, conn net.Conn, messageID, uid int64
 			// BODY[HEADER] followed by BODY[TEXT] is the whole message
 			headers = msg[:headerEnd+4]
 		}
+		// Partial fetch like BODY.PEEK[HEADER]<0.2048>
+		label := "BODY[HEADER]"
+		if start, length, ok := partialAfter(itemsUpper, "BODY.PEEK[HEADER]", "BODY[HEADER]"); ok {
+			headers = slicePartial(headers, start, length)
+			label = fmt.Sprintf("BODY[HEADER]<%d>", start)
+		}
 		if literalData != "" {
 			literalData += " "
 		}
-		responseParts = append(responseParts, "BODY[HEADER]")
+		responseParts = append(responseParts, label)
 		literalData += fmt.Sprintf("{%d}\r\n%s", len(headers), headers)
 	}
 
@@ -592,10 +598,16 @@ func processFetchForMessage(deps ServerDeps, conn net.Conn, messageID, uid int64
 		(strings.Contains(itemsUpper, "RFC822") && !strings.Contains(itemsUpper, "RFC822.SIZE") &&
 			!strings.Contains(itemsUpper, "RFC822.HEADER") && !strings.Contains(itemsUpper, "RFC822.TEXT") && !strings.Contains(itemsUpper, "RFC822.PEEK")) {
 		msg := loadRawMsg()
+		// Partial fetch like BODY.PEEK[]<0.2048>
+		label := "BODY[]"
+		if start, length, ok := partialAfter(itemsUpper, "BODY.PEEK[]", "BODY[]"); ok {
+			msg = slicePartial(msg, start, length)
+			label = fmt.Sprintf("BODY[]<%d>", start)
+		}
 		if literalData != "" {
 			literalData += " "
 		}
-		responseParts = append(responseParts, "BODY[]")
+		responseParts = append(responseParts, label)
 		literalData += fmt.Sprintf("{%d}\r\n%s", len(msg), msg)
 	}
 
@@ -640,6 +652,27 @@ func slicePartial(data string, start, length int) string {
 		length = len(data) - start
 	}
 	return data[start : start+length]
+}
+
+// partialAfter returns the partial range <start.length> written directly
+// after the first of the given item names in itemsUpper, e.g. the 0 and 2048
+// of BODY.PEEK[]<0.2048>. ok is false when the item carries no such range.
+func partialAfter(itemsUpper string, names ...string) (start, length int, ok bool) {
+	for _, name := range names {
+		idx := strings.Index(itemsUpper, name+"<")
+		if idx == -1 {
+			continue
+		}
+		rest := itemsUpper[idx+len(name)+1:]
+		end := strings.Index(rest, ">")
+		if end == -1 {
+			continue
+		}
+		if _, err := fmt.Sscanf(rest[:end], "%d.%d", &start, &length); err == nil {
+			return start, length, true
+		}
+	}
+	return 0, 0, false
 }
 
 // HasSignedPartial reports whether a FETCH item list contains a partial
